@@ -98,6 +98,10 @@ def gen_case(rng):
             args.append(None)
         else:
             args.append(rng.choice(["", "hello", "Bond", "a b"]))
+    if args and rng.random() < 0.04:
+        # one long argument with line breaks at odd places: longer than any stream buffer, a long tail without a line break
+        tail = rng.choice([1000, 1020, 1024, 1030, 2048, 5000, 9000])
+        args[rng.randrange(len(args))] = rng.choice(["head\n", "", "a\nb\n", "\n"]) + "t" * tail + rng.choice(["", "\n", "\nend"])
     parts = []
     uses_width = False
     for s in range(nspec):
